@@ -288,12 +288,17 @@ def main(ck):
                 pass
     budget = 45 if quick else 90
     jobs = [{'id': i, 'text': c['text'], 'budget': budget} for i, c in enumerate(cases)]
-    with mp.Pool(jobs_n, initializer=U.worker_init, maxtasksperchild=400) as pool:
-        recs = pool.map(U.analyze, jobs, chunksize=4)
+    # import everything the workers need ONCE in the parent (no DuckDB connection is opened here), then fork
+    U.analyze({'id': -1, 'text': 'define operator f (x dataset) returns dataset is x end operator;\nA := f(B);', 'budget': 300})
+    from vtlengine import run as _warm  # noqa: F401
+    pool = mp.get_context('fork').Pool(jobs_n)
+
+    def pmap(fn, js, chunksize, per_job):
+        return pool.map_async(fn, js, chunksize=chunksize).get(timeout=600 + per_job * (len(js) // jobs_n + 2))
+    recs = pmap(U.analyze, jobs, 4, budget)
     late = [i for i, r in enumerate(recs) if 'timeout' in r]
     if late:    # a loaded machine can stall a worker; give every timed-out script one more, longer, try
-        with mp.Pool(min(jobs_n, len(late)), initializer=U.worker_init) as pool:
-            again = pool.map(U.analyze, [dict(jobs[i], budget=budget * 4) for i in late], chunksize=1)
+        again = pmap(U.analyze, [dict(jobs[i], budget=budget * 4) for i in late], 1, budget * 4)
         for i, r in zip(late, again):
             recs[i] = r
 
@@ -408,14 +413,14 @@ def main(ck):
             run_jobs = []
     for n, j in enumerate(run_jobs):
         j['persistent_check'] = (n % 3 == 0)      # return_only_persistent=True on both sides for a third of them
-    with mp.Pool(jobs_n, initializer=U.worker_init, maxtasksperchild=60) as pool:
-        rres = pool.map(U.run_pair, run_jobs, chunksize=1)
+    rres = pmap(U.run_pair, run_jobs, 1, 120)
     late = [n for n, r in enumerate(rres) if r.get('timeout')]
     if late:
-        with mp.Pool(min(jobs_n, len(late)), initializer=U.worker_init) as pool:
-            again = pool.map(U.run_pair, [dict(run_jobs[n], budget=run_jobs[n]['budget'] * 4) for n in late], chunksize=1)
+        again = pmap(U.run_pair, [dict(run_jobs[n], budget=run_jobs[n]['budget'] * 4) for n in late], 1, 480)
         for n, r in zip(late, again):
             rres[n] = r
+    pool.terminate()
+    pool.join()
     phases['run'] = round(time.time() - t0, 1)
     hist_run = collections.Counter()
     same_err = collections.Counter()
